@@ -284,6 +284,9 @@ impl Check for TailCheck {
         let mut rng = Rng::new(seed, "workload");
         let mut k = gen_knobs(&mut rng, avoid);
         k.w_top = [40, 3, *rng.pick(&[0, 6]), 2, *rng.pick(&[0, 4]), 3, 0];
+        if avoid.iter().any(|a| a == "index_with_tail_damage") {
+            k.w_top[3] = 0;
+        }
         k.n_ops = rng.range(1, 6) as usize;
         k.max_txn_ops = rng.range(1, 5) as usize;
         k.big_values = rng.chance(0.05);
@@ -656,7 +659,7 @@ impl Check for IoErrCheck {
         "fault_enumeration"
     }
     fn budget(&self, tier: &str) -> usize {
-        if tier == "thorough" { 20000 } else { 1500 }
+        if tier == "thorough" { 40_000 } else { 1_500 }
     }
     fn gen_case(&self, seed: u64, _idx: usize, _tier: &str, avoid: &[String]) -> Case {
         let mut rng = Rng::new(seed, "workload");
